@@ -155,6 +155,14 @@ fn integer_lattice() -> Vec<(u128, u32, bool)> {
         ms.extend([p10 - 1, p10, p10 + 1, p10 * 3, p10 * 5]);
         p10 *= 10;
     }
+    // d.ddd000...0: a fractional part whose only non-zero digits are the leading ones
+    let mut k10: u128 = 1;
+    for _ in 0..=26 {
+        for dgt in [11u128, 15, 25, 75, 99, 105, 125, 999] {
+            ms.push(dgt * k10);
+        }
+        k10 *= 10;
+    }
     let i64max = i64::MAX as u128;
     let mut s10: u128 = 1;
     for _ in 0..=9 {
@@ -326,6 +334,7 @@ impl Prop for C17 {
         Plan {
             stages: vec![
                 Stage { name: "from-int".into(), len: 16, chunk: 1, timeout: Duration::from_secs(300), what: "From<integer types>: i8/u8/i16/u16 all values, wider types on the boundary lattice".into() },
+                Stage { name: "dev-from-int".into(), len: 16, chunk: 1, timeout: Duration::from_secs(300), what: "the same integer conversions in the dev build (overflow checks on)".into() },
                 Stage { name: "from-float".into(), len: 4, chunk: 1, timeout: Duration::from_secs(300), what: "From<f32|f64>: 12-16 mantissa patterns x every exponent x sign, plus named values".into() },
                 Stage { name: "integer".into(), len: il, chunk: (il / 32).max(1000), timeout: Duration::from_secs(300), what: "integer() on (mantissa, scale, sign) lattice".into() },
                 Stage { name: "accessors".into(), len: 1, chunk: 1, timeout: Duration::from_secs(60), what: "every accessor x every variant; From for strings, booleans, decimals, lists".into() },
@@ -344,6 +353,10 @@ impl Prop for C17 {
         }
     }
     fn run(&self, _tier: Tier, stage: usize, a: u64, b: u64, out: &mut WorkerOut) {
+        let stage = match stage {
+            0 | 1 => 0,
+            n => n - 1,
+        };
         match stage {
             0 => {
                 for part in a..b {
